@@ -1,4 +1,6 @@
 import JominiModel.Proofs.BinTapeDropped
+import JominiModel.Proofs.BinTapePairs
+import JominiModel.Proofs.BinTapeEqTok
 /-
 C03, what the tape leaves out — with context.  Every iteration of the loop acts on the lexeme content
 of the tape by exactly one of four `Move`s (Spec/BinTapeLex.lean): `keep`, `eqAfterKey`, `ghost`,
@@ -9,17 +11,128 @@ namespace Jomini.BinTape
 open Jomini
 
 
+/-! ### balance of good sequences; the token-level shape of an only_empties run -/
+
+def BTok.isStartB : BTok → Bool
+  | .array _ | .object _ => true
+  | _ => false
+def BTok.isEndB : BTok → Bool
+  | .end_ _ => true
+  | _ => false
+
+def starts (l : Tape) : Nat := (l.filter BTok.isStartB).length
+def ends (l : Tape) : Nat := (l.filter BTok.isEndB).length
+
+@[simp] theorem starts_append (a b : Tape) : starts (a ++ b) = starts a + starts b := by simp [starts]
+@[simp] theorem ends_append (a b : Tape) : ends (a ++ b) = ends a + ends b := by simp [ends]
+
+theorem plain_counts {x : BTok} (h : x.isPlain = true) : starts [x] = 0 ∧ ends [x] = 0 := by
+  cases x <;> simp [BTok.isPlain] at h <;> simp [starts, ends, BTok.isStartB, BTok.isEndB]
+
+mutual
+theorem GSeq.bal : ∀ {l : Tape}, GSeq l → starts l = ends l
+  | _, .nil => rfl
+  | _, .plain h hx => by
+    have := GSeq.bal h; have := plain_counts hx; simp; omega
+  | _, .cont h hc => by
+    have := GSeq.bal h; have := GCont.bal hc; simp; omega
+theorem GCont.bal : ∀ {c : Tape}, GCont c → starts c = ends c
+  | _, @GCont.arr inner e i h => by
+    have := GSeq.bal h
+    have e1 : BTok.array e :: (inner ++ [BTok.end_ i]) = [BTok.array e] ++ inner ++ [BTok.end_ i] := by simp
+    rw [e1]
+    have a1 : starts [BTok.array e] = 1 := rfl
+    have a2 : ends [BTok.array e] = 0 := rfl
+    have a3 : starts [BTok.end_ i] = 0 := rfl
+    have a4 : ends [BTok.end_ i] = 1 := rfl
+    simp only [starts_append, ends_append, a1, a2, a3, a4]; omega
+  | _, @GCont.obj inner ph e i h _ => by
+    have := Body.bal h
+    have e1 : BTok.object e :: (inner ++ [BTok.end_ i]) = [BTok.object e] ++ inner ++ [BTok.end_ i] := by simp
+    rw [e1]
+    have a1 : starts [BTok.object e] = 1 := rfl
+    have a2 : ends [BTok.object e] = 0 := rfl
+    have a3 : starts [BTok.end_ i] = 0 := rfl
+    have a4 : ends [BTok.end_ i] = 1 := rfl
+    simp only [starts_append, ends_append, a1, a2, a3, a4]; omega
+theorem Body.bal : ∀ {l : Tape} {ph : Phase}, Body l ph → starts l = ends l
+  | _, _, .nil => rfl
+  | _, _, .key h hk => by
+    have := Body.bal h; have := plain_counts (BTok.isKey_plain hk); simp; omega
+  | _, _, .valPlain h hv => by
+    have := Body.bal h; have := plain_counts (BTok.isVal_plain hv); simp; omega
+  | _, _, .valCont h hc => by
+    have := Body.bal h; have := GCont.bal hc; simp; omega
+  | _, _, .mixed h => by
+    have := Body.bal h; simp [starts, ends, BTok.isStartB, BTok.isEndB] at *; omega
+  | _, _, .afterPlain h hx => by
+    have := Body.bal h; have := plain_counts hx; simp; omega
+  | _, _, .afterCont h hc => by
+    have := Body.bal h; have := GCont.bal hc; simp; omega
+end
+
+/-- what the only_empties test accepts, token-wise: balanced `{}` pairs, then at most one more token (which
+then stands at the start or directly behind an `End`) -/
+theorem allEmptyPairs_tok : ∀ (l : Tape), allEmptyPairs l = true →
+    ∃ n, (flat l = pairsLex n ∧ l.length / 2 = n) ∨
+      (∃ l0 y, l = l0 ++ [y] ∧ flat l0 = pairsLex n ∧ starts l0 = ends l0 ∧ l.length / 2 = n ∧
+        (l0 = [] ∨ ∃ l1 j, l0 = l1 ++ [.end_ j]))
+  | [], _ => ⟨0, Or.inl ⟨rfl, rfl⟩⟩
+  | [y], _ => ⟨0, Or.inr ⟨[], y, rfl, rfl, rfl, by simp, Or.inl rfl⟩⟩
+  | a :: b :: rest, h => by
+    cases a <;> cases b <;> simp [allEmptyPairs] at h
+    rename_i ea eb
+    obtain ⟨n, hn⟩ := allEmptyPairs_tok rest h.2
+    refine ⟨n + 1, ?_⟩
+    rcases hn with ⟨h1, h2⟩ | ⟨l0, y, h1, h2, h3, h4, h5⟩
+    · exact Or.inl ⟨by simp [h1, flatten, pairsLex], by simp; omega⟩
+    · subst h1
+      refine Or.inr ⟨BTok.array ea :: BTok.end_ eb :: l0, y, by simp, by simp [h2, flatten, pairsLex], ?_,
+        by simp at h4 ⊢; omega, Or.inr ?_⟩
+      · have e1 : BTok.array ea :: BTok.end_ eb :: l0 = [BTok.array ea] ++ [BTok.end_ eb] ++ l0 := by simp
+        rw [e1]
+        have a1 : starts [BTok.array ea] = 1 := rfl
+        have a2 : ends [BTok.array ea] = 0 := rfl
+        have a3 : starts [BTok.end_ eb] = 0 := rfl
+        have a4 : ends [BTok.end_ eb] = 1 := rfl
+        simp only [starts_append, ends_append, a1, a2, a3, a4]; omega
+      · rcases h5 with rfl | ⟨l1, j, rfl⟩
+        · exact ⟨[BTok.array ea], eb, rfl⟩
+        · exact ⟨BTok.array ea :: BTok.end_ eb :: l1, j, by simp⟩
+
+theorem plain_of_counts {y : BTok} (h : starts [y] = ends [y]) : y.isPlain = true := by
+  cases y
+  case array e => have h' : (1 : Nat) = 0 := h; omega
+  case object e => have h' : (1 : Nat) = 0 := h; omega
+  case end_ i => have h' : (0 : Nat) = 1 := h; omega
+  all_goals rfl
+
 /-- in `KeyValueSeparator` / `OpenSecond` the last tape token is a scalar standing for itself -/
 def LastLex (tape : Tape) (state : PState) : Prop :=
   (state = .keyValueSeparator ∨ state = .openSecond) → ∃ t0 x, tape = t0 ++ [x] ∧ flatten x = [.tok x]
 
+/-- a value is owed: the `=` behind a key has just been read (`ObjectValue`) -/
+def owed : PState → Bool
+  | .objectValue => true
+  | _ => false
+
 /-- one iteration as a `Move`, and the last-token fact for the next one -/
 def StepMove (st st' : St) : Prop :=
   ∀ L, Lexes st.data L → ∃ L1 L2 o, L = L1 ++ L2 ∧ Lexes st'.data L2 ∧
-    Move (flat st.tape) L1 (flat st'.tape) o ∧ LastLex st'.tape st'.state
+    Move (owed st.state) (flat st.tape) L1 (flat st'.tape) o (owed st'.state) ∧ LastLex st'.tape st'.state
 
-theorem move_keep {A N L1 : List Lx} (h : N = A ++ L1) : Move A L1 N none := by
-  subst h; exact Move.keep A L1
+theorem move_keep {p q : Bool} {A N L1 : List Lx} (h : N = A ++ L1) (hne : L1 ≠ []) (hq : q = false) :
+    Move p A L1 N none q := by
+  subst h; subst hq; exact Move.keep p A L1 hne
+
+/-- a token that stands for itself as a lexeme is a key token -/
+theorem flatten_tok_isKey {x : BTok} (h : flatten x = [.tok x]) : x.isKey = true := by
+  cases x with
+  | rgb r g b a => cases a <;> simp [flatten] at h
+  | _ => first | rfl | (simp [flatten] at h)
+
+theorem nextState_not_owed {s s' : PState} (h : nextState s = some s') : owed s' = false := by
+  cases s <;> simp at h <;> subst h <;> rfl
 
 theorem lastLex_other {tape : Tape} {s : PState} (h1 : s ≠ .keyValueSeparator) (h2 : s ≠ .openSecond) : LastLex tape s := by
   intro h; rcases h with h | h
@@ -43,7 +156,7 @@ theorem scalarArm_move {r : Except Err (Tape × Bytes)} {tape : Tape} {parent : 
       simp [hn] at h; subst h
       intro L hL
       obtain ⟨L', rfl, hL'⟩ := hL.uncons hl
-      exact ⟨[.tok x], L', none, rfl, hL', move_keep (by simp [hx]), fun _ => ⟨tape, x, rfl, hx⟩⟩
+      exact ⟨[.tok x], L', none, rfl, hL', move_keep (by simp [hx]) (by simp) (nextState_not_owed hn), fun _ => ⟨tape, x, rfl, hx⟩⟩
 
 /-- what the only_empties test accepts, as lexemes: `n` empty containers, then at most one more token -/
 theorem allEmptyPairs_lex : ∀ (l : Tape), allEmptyPairs l = true →
@@ -58,7 +171,9 @@ theorem allEmptyPairs_lex : ∀ (l : Tape), allEmptyPairs l = true →
 
 theorem equalArm_move {tape : Tape} {parent : Nat} {state : PState} {d dp : Bytes} {st' : St}
     (hr : readId dp = some (L.equal, d)) (h : equalArm tape parent state d = .ok st')
-    (hll : LastLex tape state) : StepMove ⟨tape, parent, state, dp⟩ st' := by
+    (hll : LastLex tape state) (ht : TInv tape parent state) (hg : GInv tape parent state)
+    (hei : EInv tape state) :
+    StepMove ⟨tape, parent, state, dp⟩ st' := by
   intro L hL
   obtain ⟨L', rfl, hL'⟩ := hL.uncons (lexOne_equal hr)
   unfold equalArm at h
@@ -68,7 +183,7 @@ theorem equalArm_move {tape : Tape} {parent : Nat} {state : PState} {d dp : Byte
     obtain ⟨t0, x, rfl, hx⟩ := hll (Or.inl rfl)
     refine ⟨[.equal], L', none, rfl, hL', ?_, lastLex_other (by simp) (by simp)⟩
     simp only [flat_append, flat_cons, flat_nil, hx, List.append_nil]
-    exact Move.eqAfterKey (flat t0) x
+    exact Move.eqAfterKey (flat t0) x (flatten_tok_isKey hx)
   · -- OpenSecond: the `=` behind the first token of the container
     cases hso : setParentToObject tape parent with
     | error e => simp [hso] at h
@@ -79,9 +194,9 @@ theorem equalArm_move {tape : Tape} {parent : Nat} {state : PState} {d dp : Byte
       simp only
       rw [setParentToObject_flat hso]
       simp only [flat_append, flat_cons, flat_nil, hx, List.append_nil]
-      exact Move.eqAfterKey (flat t0) x
+      exact Move.eqAfterKey (flat t0) x (flatten_tok_isKey hx)
   · simp at h; subst h
-    exact ⟨[.equal], L', none, rfl, hL', move_keep (by simp [flatten]), lastLex_other (by simp) (by simp)⟩
+    exact ⟨[.equal], L', none, rfl, hL', move_keep (by simp [flatten]) (by simp) rfl, lastLex_other (by simp) (by simp)⟩
   · cases hp : pop? tape with
     | none => simp [hp] at h
     | some p =>
@@ -99,7 +214,57 @@ theorem equalArm_move {tape : Tape} {parent : Nat} {state : PState} {d dp : Byte
           | ok t2 =>
             simp [hso] at h; subst h
             simp only [onlyEmpties, Bool.and_eq_true, decide_eq_true_eq] at hoe
-            obtain ⟨n, odd, hfl, hodd, hn⟩ := allEmptyPairs_lex _ hoe.2
+            -- the innermost open container is an array whose body ends with `last`
+            have hp0 := tinv_parent_ne ht (Or.inl rfl)
+            obtain ⟨top, hog, hc⟩ := hg
+            generalize hm : t1 ++ [last] = tp at hog
+            have hkey : last.isKey = true ∧ GSeq (t1.drop (parent + 1)) := by
+              cases hog with
+              | root _ => exact absurd rfl hp0
+              | @obj g p pre seg ph below hb hcb hl' hp hbody => exact absurd (Or.inl rfl) hc.1
+              | @arr g p pre seg below hb hcb hl' hp hseg =>
+                rename_i hna hne
+                rcases List.eq_nil_or_concat seg with hs | ⟨seg1, y, hs⟩
+                · subst hs
+                  have := List.append_inj_right' (show t1 ++ [last] = pre ++ [BTok.array g] from hm) (by simp)
+                  simp at this; exact absurd this (hna g)
+                rw [List.concat_eq_append] at hs; subst hs
+                have e1 : t1 ++ [last] = (pre ++ BTok.array g :: seg1) ++ [y] := by simpa using hm
+                have e2 := List.append_inj_left' e1 (by simp)
+                have e3 := List.append_inj_right' e1 (by simp)
+                simp at e3; subst e3; subst e2
+                obtain ⟨hlp, hseg1⟩ := hseg.unsnoc' hne
+                refine ⟨hc.2.2.2 rfl seg1 last rfl hlp, ?_⟩
+                have : (pre ++ BTok.array g :: seg1).drop (parent + 1) = seg1 := by
+                  rw [← hl', List.drop_append]; simp
+                rw [this]; exact hseg1
+            obtain ⟨hlk, hgs⟩ := hkey
+            subst hm
+            have hne1 := hei.1
+            obtain ⟨n, hshape⟩ := allEmptyPairs_tok _ hoe.2
+            obtain ⟨odd, hfl, hodd, hn⟩ : ∃ odd, flat (t1.drop (parent + 1)) = pairsLex n ++ odd ∧
+                (odd = [] ∨ ∃ y : BTok, odd = flatten y ∧ y.isVal = true) ∧ (t1.drop (parent + 1)).length / 2 = n := by
+              rcases hshape with ⟨h1, h2⟩ | ⟨l0, y, h1, h2, h3, h4, h5⟩
+              · exact ⟨[], by simpa using h1, Or.inl rfl, h2⟩
+              · have hyp : y.isPlain = true := by
+                  have hb := hgs.bal
+                  rw [h1] at hb
+                  simp only [starts_append, ends_append] at hb
+                  exact plain_of_counts (by omega)
+                -- `y` stands directly behind an `End`, so it is not an `Equal`
+                have hye : y ≠ .equal := by
+                  rcases h5 with rfl | ⟨l1, j, rfl⟩
+                  · have h6 := hoe.1; rw [h1] at h6; simp at h6
+                  · have e : t1 ++ [last] = (t1.take (parent + 1) ++ l1) ++ BTok.end_ j :: y :: [last] := by
+                      conv => lhs; rw [← List.take_append_drop (parent + 1) t1, h1]
+                      simp
+                    rw [e] at hne1
+                    exact noEndEq_pair hne1 j rfl
+                by_cases hym : y = .mixed
+                · subst hym
+                  exact ⟨[], by rw [h1]; simp [h2, flatten], Or.inl rfl, h4⟩
+                · refine ⟨flatten y, by rw [h1]; simp [h2], Or.inr ⟨y, rfl, ?_⟩, h4⟩
+                  simp [BTok.isVal, hyp, hym, hye]
             obtain ⟨e, he, rfl⟩ := setParentToObject_ok hso
             have hl := getElem?_lt_length he
             -- the part up to and including the parent slot: `A ++ [{]`
@@ -116,9 +281,9 @@ theorem equalArm_move {tape : Tape} {parent : Nat} {state : PState} {d dp : Byte
             refine ⟨[.equal], L', some odd, rfl, hL', ?_, lastLex_other (by simp) (by simp)⟩
             simp only [flat_append, flat_cons, flat_nil, List.append_nil]
             rw [htake, hsplit]
-            exact Move.rewrite (flat (t1.take parent)) n odd last (by omega) hodd
+            exact Move.rewrite (flat (t1.take parent)) n odd last (by omega) hlk hodd
         · simp at h; subst h
-          exact ⟨[.equal], L', none, rfl, hL', move_keep (by simp [flatten]), lastLex_other (by simp) (by simp)⟩
+          exact ⟨[.equal], L', none, rfl, hL', move_keep (by simp [flatten]) (by simp) rfl, lastLex_other (by simp) (by simp)⟩
   · cases h
 
 
@@ -133,7 +298,8 @@ theorem closeTo_kind {tape : Tape} {p : Nat} {T' : Tape} {g : Nat} {s : PState} 
 
 theorem tokenArm_move {tape : Tape} {parent : Nat} {state : PState} {d dp : Bytes} {tok : Nat} {st' : St}
     (hr : readId dp = some (tok, d)) (h : tokenArm false 0 tape parent state d tok = .ok st')
-    (hll : LastLex tape state) :
+    (hll : LastLex tape state) (ht : TInv tape parent state) (hg : GInv tape parent state)
+    (hei : EInv tape state) :
     StepMove ⟨tape, parent, state, dp⟩ st' := by
   unfold tokenArm at h
   by_cases c1 : tok = L.u32
@@ -204,7 +370,7 @@ theorem tokenArm_move {tape : Tape} {parent : Nat} {state : PState} {d dp : Byte
     unfold openArm at h
     split at h
     · simp at h; subst h
-      exact ⟨[.open_], L', none, rfl, hL', move_keep (by simp [flatten]), lastLex_other (by simp) (by simp)⟩
+      exact ⟨[.open_], L', none, rfl, hL', move_keep (by simp [flatten]) (by simp) rfl, lastLex_other (by simp) (by simp)⟩
     · split at h
       · cases h
       · cases hrd : readId d with
@@ -239,12 +405,13 @@ theorem tokenArm_move {tape : Tape} {parent : Nat} {state : PState} {d dp : Byte
       | ok p =>
         obtain ⟨a, b, c⟩ := p
         simp [hp] at h; subst h
-        refine ⟨[.close], L', none, rfl, hL', move_keep (by simp [pushEnd_flat hp, h1]), ?_⟩
         obtain ⟨_, _, hkind⟩ := closeTo_kind hp
+        refine ⟨[.close], L', none, rfl, hL', move_keep (by simp [pushEnd_flat hp, h1]) (by simp)
+          (by rcases hkind with rfl | rfl <;> rfl), ?_⟩
         rcases hkind with rfl | rfl <;> exact lastLex_other (by simp) (by simp)
   rw [if_neg c10] at h
   by_cases c11 : tok = L.equal
-  · subst c11; rw [if_pos rfl] at h; exact equalArm_move hr h hll
+  · subst c11; rw [if_pos rfl] at h; exact equalArm_move hr h hll ht hg hei
   rw [if_neg c11] at h
   by_cases c13 : tok = L.i64
   · subst c13
@@ -268,7 +435,7 @@ theorem tokenArm_move {tape : Tape} {parent : Nat} {state : PState} {d dp : Byte
       obtain ⟨L', rfl, hL'⟩ := hL.uncons hid
       obtain ⟨L2, rfl, hL2⟩ := readRgb_lexes hrg L' hL'
       obtain ⟨a, b, c, al, rfl⟩ := readRgb_isRgb hrg
-      refine ⟨flatten (.rgb a b c al), L2, none, ?_, hL2, move_keep (by simp), lastLex_other (by simp) (by simp)⟩
+      refine ⟨flatten (.rgb a b c al), L2, none, ?_, hL2, move_keep (by simp) (by cases al <;> simp [flatten]) rfl, lastLex_other (by simp) (by simp)⟩
       cases al <;> simp [flatten]
   rw [if_neg c12, if_neg c13] at h
   refine scalarArm_move ?_ h
@@ -276,7 +443,9 @@ theorem tokenArm_move {tape : Tape} {parent : Nat} {state : PState} {d dp : Byte
   exact ⟨_, rfl, rfl, hid⟩
 
 
-theorem step_move {st st' : St} (h : step st = .next st') (hll : LastLex st.tape st.state) : StepMove st st' := by
+theorem step_move {st st' : St} (h : step st = .next st') (hll : LastLex st.tape st.state)
+    (ht : TInv st.tape st.parent st.state) (hg : GInv st.tape st.parent st.state)
+    (hei : EInv st.tape st.state) : StepMove st st' := by
   cases hr : readId st.data with
   | none => rw [step_done hr] at h; cases h
   | some p =>
@@ -288,36 +457,47 @@ theorem step_move {st st' : St} (h : step st = .next st') (hll : LastLex st.tape
       simp [hd, Iter.ofExcept] at h; subst h
       unfold dispatch at hd
       split at hd
-      · cases hm : mixedInsert2 st.tape with
-        | error x => simp [hm] at hd
-        | ok t =>
-          simp only [hm] at hd
-          have := tokenArm_move (dp := st.data) hr hd (lastLex_other (by simp) (by simp))
-          intro L hL
-          obtain ⟨L1, L2, o, h1, h2, h3, h4⟩ := this L hL
-          exact ⟨L1, L2, o, h1, h2, by simpa [mixedInsert2_flat hm] using h3, h4⟩
-      · exact tokenArm_move (dp := st.data) hr hd hll
+      · rename_i hs
+        rw [hs] at ht hg
+        obtain ⟨⟨t0, x, y, htape, hx, hy, ho⟩, _, _⟩ := ht
+        rw [htape] at hg
+        have hm := mixedInsert2_snoc2 t0 x y
+        rw [htape, hm] at hd
+        simp only at hd
+        obtain ⟨top, hog, hc⟩ := hg
+        obtain ⟨top', hog', hc'⟩ := openG_mixedInsert2 hx hy hog hc
+        have ht' : TInv (t0 ++ [BTok.mixed, x, y]) st.parent .arrayValueMixed := by
+          refine ⟨?_, by simp, by simp⟩
+          have : t0 ++ [BTok.mixed, x, y] = t0 ++ [BTok.mixed] ++ [x] ++ [y] := by simp
+          simp only; rw [this]
+          exact ((ho.snoc_plain rfl).snoc_plain hx).snoc_plain hy
+        have hei' : EInv (t0 ++ [BTok.mixed, x, y]) .arrayValueMixed := by
+          refine ⟨?_, fun _ => ?_⟩
+          · have := hei.1; rw [htape] at this; exact noEndEq_insert2 this
+          · have e : t0 ++ [BTok.mixed, x, y] = t0 ++ [BTok.mixed, x] ++ [y] := by simp
+            rw [e]
+            exact lastNotEnd_snoc (by intro j hh; subst hh; simp [BTok.isPlain] at hy)
+        have := tokenArm_move (dp := st.data) hr hd (lastLex_other (by simp) (by simp)) ht' ⟨top', hog', hc'⟩ hei'
+        intro L hL
+        obtain ⟨L1, L2, o, h1, h2, h3, h4⟩ := this L hL
+        refine ⟨L1, L2, o, h1, h2, ?_, h4⟩
+        have hf : flat (t0 ++ [BTok.mixed, x, y]) = flat st.tape := by rw [htape]; simp [flatten]
+        rw [hf] at h3; rw [hs]; exact h3
+      · exact tokenArm_move (dp := st.data) hr hd hll ht hg hei
 
-theorem Moves.trans {A B C L1 L2 : List Lx} {o1 o2 : List (List Lx)} (h1 : Moves A L1 B o1) (h2 : Moves B L2 C o2) :
-    Moves A (L1 ++ L2) C (o1 ++ o2) := by
-  induction h1 with
-  | nil A => simpa using h2
-  | step hm _ ih =>
-    have := Moves.step hm (ih h2)
-    simpa [List.append_assoc] using this
-
-theorem reach_moves {a b : St} (h : Reach a b) (hll : LastLex a.tape a.state) :
-    ∀ L, Lexes a.data L → ∃ L1 L2 odds, L = L1 ++ L2 ∧ Lexes b.data L2 ∧ Moves (flat a.tape) L1 (flat b.tape) odds := by
+theorem reach_moves {a b : St} (h : Reach a b) (hll : LastLex a.tape a.state)
+    (ht : TInv a.tape a.parent a.state) (hg : GInv a.tape a.parent a.state) (hei : EInv a.tape a.state) :
+    ∀ L, Lexes a.data L → ∃ L1 L2 odds, L = L1 ++ L2 ∧ Lexes b.data L2 ∧ Moves (owed a.state) (flat a.tape) L1 (flat b.tape) odds := by
   obtain ⟨k, hk⟩ := h
   induction k generalizing a with
-  | zero => simp [stepN] at hk; subst hk; intro L hL; exact ⟨[], L, [], rfl, hL, Moves.nil _⟩
+  | zero => simp [stepN] at hk; subst hk; intro L hL; exact ⟨[], L, [], rfl, hL, Moves.nil _ _⟩
   | succ k ih =>
     cases hst : step a with
     | next a' =>
       simp only [stepN, hst] at hk
       intro L hL
-      obtain ⟨L1, L2, o, rfl, h2, h3, h4⟩ := step_move hst hll L hL
-      obtain ⟨M1, M2, odds, rfl, g2, g3⟩ := ih h4 hk L2 h2
+      obtain ⟨L1, L2, o, rfl, h2, h3, h4⟩ := step_move hst hll ht hg hei L hL
+      obtain ⟨M1, M2, odds, rfl, g2, g3⟩ := ih h4 (step_inv hst ht) (step_ginv hst ht hg) (step_einv hst ht hei) hk L2 h2
       exact ⟨L1 ++ M1, M2, o.toList ++ odds, by simp, g2, Moves.step h3 g3⟩
     | done => simp [stepN, hst] at hk
     | err e => simp [stepN, hst] at hk
@@ -325,13 +505,13 @@ theorem reach_moves {a b : St} (h : Reach a b) (hll : LastLex a.tape a.state) :
 /-- **what happens to every lexeme of an accepted input**: the lexeme content of the tape is built from
 the lexeme list by `keep` / `eqAfterKey` / `ghost` / `rewrite` moves only -/
 theorem parse_moves (opt : Bool) (data : Bytes) (T : Tape) (h : parse opt data = .ok T) (L : List Lx)
-    (hL : Lexes data L) : ∃ odds, Moves [] L (flat T) odds := by
+    (hL : Lexes data L) : ∃ odds, Moves false [] L (flat T) odds := by
   have h' : parse false data = .ok T := by
     cases opt
     · exact h
     · rwa [parse_true_eq_false] at h
   obtain ⟨r, hr, hreach⟩ := run_false_ok_reach _ _ _ _ h'
-  obtain ⟨L1, L2, odds, rfl, hL2, h3⟩ := reach_moves hreach (lastLex_other (by simp [init]) (by simp [init])) L hL
+  obtain ⟨L1, L2, odds, rfl, hL2, h3⟩ := reach_moves hreach (lastLex_other (by simp [init]) (by simp [init])) (init_inv data) (init_ginv data) (init_einv data) L hL
   have : L2 = [] := by
     cases hL2 with
     | done _ => rfl
@@ -342,7 +522,7 @@ theorem parse_moves (opt : Bool) (data : Bytes) (T : Tape) (h : parse opt data =
         | [_], _ => rfl
       simp [lexOne, this] at hx
   subst this
-  exact ⟨odds, by simpa [init] using h3⟩
+  exact ⟨odds, by simpa [init, owed] using h3⟩
 
 /-! ### consequences -/
 
@@ -352,17 +532,17 @@ theorem pairsLex_toks : ∀ n, (pairsLex n).filter Lx.isTok = []
 
 /-- scalar / id lexemes are never lost except in the `odd` chunk of a rewrite: as multisets,
 `toks A ++ toks L = toks C ++ toks (odd chunks)` -/
-theorem Moves.toks_perm {A L C : List Lx} {odds : List (List Lx)} (h : Moves A L C odds) :
+theorem Moves.toks_perm {p : Bool} {A L C : List Lx} {odds : List (List Lx)} (h : Moves p A L C odds) :
     (A.filter Lx.isTok ++ L.filter Lx.isTok).Perm (C.filter Lx.isTok ++ odds.flatten.filter Lx.isTok) := by
   induction h with
-  | nil A => simp
-  | @step A B C L1 L2 o odds hm _ ih =>
+  | nil p A => simp
+  | @step p q A B C L1 L2 o odds hm _ ih =>
     have hstep : (A.filter Lx.isTok ++ L1.filter Lx.isTok).Perm (B.filter Lx.isTok ++ (o.toList.flatten).filter Lx.isTok) := by
       cases hm with
       | keep => simp
-      | eqAfterKey A k => simp [Lx.isTok]
+      | eqAfterKey A k hk => simp [Lx.isTok]
       | ghost => simp [Lx.isTok]
-      | rewrite A n odd last hn hodd =>
+      | rewrite A n odd last hn hlk hodd =>
         simp only [List.filter_append, pairsLex_toks, Option.toList_some, List.flatten_cons, List.flatten_nil,
           List.append_nil, List.nil_append]
         simp only [Lx.isTok, List.filter_cons, List.filter_nil, Bool.false_eq_true, if_false, List.append_nil]
@@ -386,11 +566,11 @@ theorem Moves.toks_perm {A L C : List Lx} {odds : List (List Lx)} (h : Moves A L
       exact List.Perm.append_left _ List.perm_append_comm
     exact e1.trans (e2.trans (e3.trans e4))
 
-theorem Moves.odds_shape {A L C : List Lx} {odds : List (List Lx)} (h : Moves A L C odds) :
-    ∀ o ∈ odds, o = [] ∨ ∃ y : BTok, o = flatten y := by
+theorem Moves.odds_shape {p : Bool} {A L C : List Lx} {odds : List (List Lx)} (h : Moves p A L C odds) :
+    ∀ o ∈ odds, o = [] ∨ ∃ y : BTok, o = flatten y ∧ y.isVal = true := by
   induction h with
-  | nil A => simp
-  | @step A B C L1 L2 o odds hm _ ih =>
+  | nil p A => simp
+  | @step p q A B C L1 L2 o odds hm _ ih =>
     intro x hx
     simp at hx
     rcases hx with hx | hx
@@ -398,30 +578,295 @@ theorem Moves.odds_shape {A L C : List Lx} {odds : List (List Lx)} (h : Moves A 
       | keep => simp at hx
       | eqAfterKey => simp at hx
       | ghost => simp at hx
-      | rewrite A n odd last hn hodd => simp at hx; subst hx; exact hodd
+      | rewrite A n odd last hn hlk hodd => simp at hx; subst hx; exact hodd
     · exact ih x hx
 
 
 /-- without a `{` on the tape or in the input no rewrite can happen -/
-theorem Moves.no_open {A L C : List Lx} {odds : List (List Lx)} (h : Moves A L C odds)
+theorem Moves.no_open {p : Bool} {A L C : List Lx} {odds : List (List Lx)} (h : Moves p A L C odds)
     (hA : Lx.open_ ∉ A) (hL : Lx.open_ ∉ L) : odds = [] ∧ Lx.open_ ∉ C := by
   induction h with
-  | nil A => exact ⟨rfl, hA⟩
-  | @step A B C L1 L2 o odds hm _ ih =>
+  | nil p A => exact ⟨rfl, hA⟩
+  | @step p q A B C L1 L2 o odds hm _ ih =>
     simp only [List.mem_append, not_or] at hL
     cases hm with
     | keep =>
       obtain ⟨h1, h2⟩ := ih (by simp [hA, hL.1]) hL.2
       exact ⟨by simp [h1], h2⟩
-    | eqAfterKey A k =>
+    | eqAfterKey A k hk =>
       obtain ⟨h1, h2⟩ := ih hA hL.2
       exact ⟨by simp [h1], h2⟩
     | ghost => exact absurd (by simp) hL.1
-    | rewrite A n odd last hn hodd => exact absurd (by simp) hA
+    | rewrite A n odd last hn hlk hodd => exact absurd (by simp) hA
+
+/-! ### what the flags and the side conditions exclude -/
+
+theorem isKey_flatten {k : BTok} (h : k.isKey = true) : flatten k = [.tok k] := by
+  cases k <;> first | rfl | (simp [BTok.isKey, BTok.isVal, BTok.isPlain] at h)
+
+theorem Move.open_stays {p q : Bool} {A L1 B : List Lx} {o : Option (List Lx)} (h : Move p A L1 B o q)
+    (hA : Lx.open_ ∈ A) : Lx.open_ ∈ B := by
+  cases h with
+  | keep => simp [hA]
+  | eqAfterKey => exact hA
+  | ghost => exact hA
+  | rewrite => simp
+
+/-- a `{` on the tape never disappears altogether (a rewrite keeps the `{` of the rewritten container) -/
+theorem Moves.open_stays {p : Bool} {A L C : List Lx} {odds : List (List Lx)} (h : Moves p A L C odds)
+    (hA : Lx.open_ ∈ A) : Lx.open_ ∈ C := by
+  induction h with
+  | nil p A => exact hA
+  | step hm _ ih => exact ih (hm.open_stays hA)
+
+/-- an `=` on the tape stays unless a rewrite happens (which leaves a `{`) -/
+theorem Moves.equal_stays {p : Bool} {A L C : List Lx} {odds : List (List Lx)} (h : Moves p A L C odds)
+    (hC : Lx.open_ ∉ C) (hA : Lx.equal ∈ A) : Lx.equal ∈ C := by
+  induction h with
+  | nil p A => exact hA
+  | step hm hms ih =>
+    cases hm with
+    | keep => exact ih hC (by simp [hA])
+    | eqAfterKey => exact ih hC hA
+    | ghost => exact ih hC hA
+    | rewrite => exact absurd (hms.open_stays (by simp)) hC
+
+/-- **while a value is owed the next lexeme is recorded**: a `{` that follows a dropped `=` is on the tape -/
+theorem Moves.owed_open {A L C : List Lx} {odds : List (List Lx)} (h : Moves true A (Lx.open_ :: L) C odds) :
+    Lx.open_ ∈ C := by
+  generalize hL : Lx.open_ :: L = L0 at h
+  generalize hp : true = p at h
+  cases h with
+  | nil => cases hL
+  | step hm hms =>
+    subst hp
+    rename_i L1 L2 o odds'
+    cases hm with
+    | keep _ _ _ hne =>
+      cases L1 with
+      | nil => exact absurd rfl hne
+      | cons x L1' =>
+        simp at hL; obtain ⟨rfl, _⟩ := hL
+        exact hms.open_stays (by simp)
+
+/-- **an empty (or any) container in value position is never dropped**: if neither `{` nor `=` is on the tape,
+the input has no `= {` -/
+theorem Moves.eq_open_kept {p : Bool} {A L C : List Lx} {odds : List (List Lx)} (h : Moves p A L C odds)
+    (hC : Lx.open_ ∉ C) (hE : Lx.equal ∉ C) : ∀ L' L'', L ≠ L' ++ Lx.equal :: Lx.open_ :: L'' := by
+  induction h with
+  | nil p A => intro L' L'' h; simp at h
+  | step hm hms ih =>
+    intro L' L'' he
+    rcases List.append_eq_append_iff.mp he with ⟨a', h1, h2⟩ | ⟨c', h1, h2⟩
+    · exact ih hC hE a' L'' h2
+    · cases c' with
+      | nil => simp at h2; exact ih hC hE [] L'' (by simpa using h2.symm)
+      | cons x c'' =>
+        simp at h2; obtain ⟨hx, h2⟩ := h2
+        subst hx
+        cases hm with
+        | keep p A L1 hne => subst h1; exact hE (hms.equal_stays hC (by simp))
+        | eqAfterKey A0 k hk =>
+          have hl := congrArg List.length h1
+          simp at hl
+          have hc : c'' = [] := List.eq_nil_of_length_eq_zero (by omega)
+          subst hc
+          simp at h2; subst h2
+          exact hC hms.owed_open
+        | ghost A0 =>
+          cases L' with
+          | nil => simp at h1
+          | cons y L'1 =>
+            simp at h1
+            obtain ⟨_, h1⟩ := h1
+            cases L'1 with
+            | nil => simp at h1
+            | cons z L'2 => simp at h1
+        | rewrite => exact hC (hms.open_stays (by simp))
+
+/-- reading lexemes other than `=` and `{` only appends -/
+theorem Moves.only_keep {p : Bool} {A L C : List Lx} {odds : List (List Lx)} (h : Moves p A L C odds)
+    (hE : Lx.equal ∉ L) (hO : Lx.open_ ∉ L) : C = A ++ L ∧ odds = [] := by
+  induction h with
+  | nil p A => simp
+  | step hm _ ih =>
+    simp only [List.mem_append, not_or] at hE hO
+    cases hm with
+    | keep p A L1 hne =>
+      obtain ⟨h1, h2⟩ := ih hE.2 hO.2
+      exact ⟨by simp [h1], by simp [h2]⟩
+    | eqAfterKey => exact absurd (by simp) hE.1
+    | ghost => exact absurd (by simp) hO.1
+    | rewrite => exact absurd (by simp) hE.1
+
+/-- **the last `=` of the input**, followed by lexemes `R` without `{`: it is on the tape, or the tape ends
+with a key token and `R` -/
+theorem Moves.last_equal {p : Bool} {A L C : List Lx} {odds : List (List Lx)} (h : Moves p A L C odds) :
+    ∀ L' R, L = L' ++ Lx.equal :: R → Lx.equal ∉ R → Lx.open_ ∉ R →
+      Lx.equal ∈ C ∨ ∃ C' k, BTok.isKey k = true ∧ C = C' ++ Lx.tok k :: R := by
+  induction h with
+  | nil p A => intro L' R h; simp at h
+  | step hm hms ih =>
+    intro L' R he hE hO
+    rcases List.append_eq_append_iff.mp he with ⟨a', h1, h2⟩ | ⟨c', h1, h2⟩
+    · exact ih a' R h2 hE hO
+    · cases c' with
+      | nil => simp at h2; exact ih [] R (by simpa using h2.symm) hE hO
+      | cons x c'' =>
+        simp at h2; obtain ⟨hx, h2⟩ := h2
+        subst hx; subst h2
+        simp only [List.mem_append, not_or] at hE hO
+        obtain ⟨hC, _⟩ := hms.only_keep hE.2 hO.2
+        cases hm with
+        | keep p A L1 hne => subst h1; left; rw [hC]; simp
+        | eqAfterKey A0 k hk =>
+          have hl := congrArg List.length h1
+          simp at hl
+          have hc : c'' = [] := List.eq_nil_of_length_eq_zero (by omega)
+          subst hc
+          right; exact ⟨A0, k, hk, by rw [hC]; simp⟩
+        | ghost A0 =>
+          cases L' with
+          | nil => simp at h1
+          | cons y L'1 =>
+            simp at h1
+            obtain ⟨_, h1⟩ := h1
+            cases L'1 with
+            | nil => simp at h1
+            | cons z L'2 => simp at h1
+        | rewrite A0 n odd last hn hlk hodd =>
+          have hl := congrArg List.length h1
+          simp at hl
+          have hc : c'' = [] := List.eq_nil_of_length_eq_zero (by omega)
+          subst hc
+          right; exact ⟨A0 ++ [.open_], last, hlk, by rw [hC, isKey_flatten hlk]; simp⟩
+
+theorem pairsLex_no_equal : ∀ n, Lx.equal ∉ pairsLex n
+  | 0 => by simp [pairsLex]
+  | n + 1 => by simp [pairsLex, pairsLex_no_equal n]
+
+theorem isVal_flatten_no_equal {y : BTok} (h : y.isVal = true) : Lx.equal ∉ flatten y := by
+  cases y with
+  | rgb r g b a => cases a <;> simp [flatten]
+  | equal => simp [BTok.isVal] at h
+  | _ => simp [flatten]
+
+/-- **an `=` on the tape is never removed** (the `odd` chunk of a rewrite is never an `=`) -/
+theorem Moves.equal_kept {p : Bool} {A L C : List Lx} {odds : List (List Lx)} (h : Moves p A L C odds)
+    (hA : Lx.equal ∈ A) : Lx.equal ∈ C := by
+  induction h with
+  | nil p A => exact hA
+  | step hm hms ih =>
+    cases hm with
+    | keep => exact ih (by simp [hA])
+    | eqAfterKey => exact ih hA
+    | ghost => exact ih hA
+    | rewrite A0 n odd last hn hlk hodd =>
+      refine ih ?_
+      have hno : Lx.equal ∉ odd := by
+        rcases hodd with rfl | ⟨y, rfl, hy⟩
+        · simp
+        · exact isVal_flatten_no_equal hy
+      have hnp := pairsLex_no_equal n
+      simp only [List.mem_append, List.mem_singleton] at hA ⊢
+      rcases hA with (((hA | hA) | hA) | hA) | hA
+      · exact Or.inl (Or.inl hA)
+      · cases hA
+      · exact absurd hA hnp
+      · exact absurd hA hno
+      · exact Or.inr hA
+
+/-- an `=` read while no scalar / id lexeme is on the tape yet is recorded (it cannot be dropped behind a key,
+and there is no key for a rewrite) -/
+theorem Moves.first_equal {p : Bool} {A L C : List Lx} {odds : List (List Lx)} (h : Moves p A L C odds)
+    (hA : ∀ x ∈ A, Lx.isTok x = false) :
+    ∀ L' R, L = L' ++ Lx.equal :: R → (∀ x ∈ L', Lx.isTok x = false) → Lx.equal ∉ L' → Lx.equal ∈ C := by
+  induction h with
+  | nil p A => intro L' R h; simp at h
+  | @step p q A B C L1 L2 o odds hm hms ih =>
+    intro L' R he hT hE
+    have key : ∀ a', L' = L1 ++ a' → L2 = a' ++ Lx.equal :: R → Lx.equal ∈ C := by
+      intro a' h1 h2
+      subst h1
+      simp only [List.mem_append, not_or] at hE
+      have hT1 : ∀ x ∈ L1, Lx.isTok x = false := fun x hx => hT x (by simp [hx])
+      cases hm with
+      | keep p A L1 hne =>
+        exact ih (by intro x hx; simp at hx; rcases hx with hx | hx; exact hA x hx; exact hT1 x hx) a' R h2
+          (fun x hx => hT x (by simp [hx])) hE.2
+      | eqAfterKey => exact absurd (by simp) hE.1
+      | ghost => exact ih hA a' R h2 (fun x hx => hT x (by simp [hx])) hE.2
+      | rewrite => exact absurd (by simp) hE.1
+    rcases List.append_eq_append_iff.mp he with ⟨a', h1, h2⟩ | ⟨c', h1, h2⟩
+    · exact key a' h1 h2
+    · cases c' with
+      | nil => simp at h1 h2; exact key [] (by simp [h1]) (by simpa using h2.symm)
+      | cons x c'' =>
+        simp at h2; obtain ⟨hx, h2⟩ := h2
+        subst hx
+        cases hm with
+        | keep p A L1 hne => subst h1; exact hms.equal_kept (by simp)
+        | eqAfterKey A0 k hk => have := hA (.tok k) (by simp); simp [Lx.isTok] at this
+        | ghost A0 =>
+          cases L' with
+          | nil => simp at h1
+          | cons y L'1 =>
+            simp at h1
+            obtain ⟨_, h1⟩ := h1
+            cases L'1 with
+            | nil => simp at h1
+            | cons z L'2 => simp at h1
+        | rewrite A0 n odd last hn hlk hodd =>
+          have := hA (.tok last) (by rw [isKey_flatten hlk]; simp)
+          simp [Lx.isTok] at this
+
+/-- NON-instance (reviewer's A): `a = {} b = c` with content `[a, b, c]` — an empty container in VALUE
+position dropped as if it were a ghost — is not explained: while a value is owed only `keep` is possible -/
+example : ¬ ∃ odds, Moves false [] [.tok (.token 1), .equal, .open_, .close, .tok (.token 2), .equal, .tok (.token 3)]
+    [.tok (.token 1), .tok (.token 2), .tok (.token 3)] odds := by
+  rintro ⟨odds, h⟩
+  exact h.eq_open_kept (by simp) (by simp) [.tok (.token 1)] [.close, .tok (.token 2), .equal, .tok (.token 3)] rfl
+
+/-- NON-instance (reviewer's B): `a = { {} } = b` with content `[a, {, }, b]` (a rewrite whose `last` would be
+the `End` token) is not explained: `last` must be a key token -/
+example : ¬ ∃ odds, Moves false [] [.tok (.token 1), .equal, .open_, .open_, .close, .close, .equal, .tok (.token 2)]
+    [.tok (.token 1), .open_, .close, .tok (.token 2)] odds := by
+  rintro ⟨odds, h⟩
+  rcases h.last_equal [.tok (.token 1), .equal, .open_, .open_, .close, .close] [.tok (.token 2)] rfl (by simp) (by simp)
+    with h1 | ⟨C', k, _, h1⟩
+  · simp at h1
+  · have : C' ++ [Lx.tok k] ++ [.tok (.token 2)] = [.tok (.token 1), .open_] ++ [.close] ++ [.tok (.token 2)] := by
+      simpa using h1.symm
+    have h2 := List.append_inj_left' this rfl
+    have h3 := List.append_inj_right' h2 rfl
+    simp at h3
+
+/-- NON-instance (reviewer's C): `{ {} = b }` with content `[{, b, }]` (a rewrite whose `last` would be the
+`MixedContainer` marker, which has no content) is not explained -/
+example : ¬ ∃ odds, Moves false [] [.open_, .open_, .close, .equal, .tok (.token 2), .close]
+    [.open_, .tok (.token 2), .close] odds := by
+  rintro ⟨odds, h⟩
+  rcases h.last_equal [.open_, .open_, .close] [.tok (.token 2), .close] rfl (by simp) (by simp)
+    with h1 | ⟨C', k, _, h1⟩
+  · simp at h1
+  · have : C' ++ [Lx.tok k] ++ [.tok (.token 2), .close] = [] ++ [.open_] ++ [.tok (.token 2), .close] := by
+      simpa using h1.symm
+    have h2 := List.append_inj_left' this rfl
+    have h3 := List.append_inj_right' h2 rfl
+    simp at h3
+
+/-- NON-instance (reviewer's D): `{ {} = a = b }` with content `[{, a, b, }]` (two `=` dropped by one rewrite,
+`odd` being an `Equal` token) is not explained: `odd` is never an `=`, and the first `=` has no key before it -/
+example : ¬ ∃ odds, Moves false [] [.open_, .open_, .close, .equal, .tok (.token 1), .equal, .tok (.token 2), .close]
+    [.open_, .tok (.token 1), .tok (.token 2), .close] odds := by
+  rintro ⟨odds, h⟩
+  have := h.first_equal (by simp) [.open_, .open_, .close] [.tok (.token 1), .equal, .tok (.token 2), .close] rfl
+    (by simp [Lx.isTok]) (by simp)
+  simp at this
 
 /-- NON-instance: a tape that silently drops an ordinary scalar — input `a = b`, tape content `[a]` — is not
 explained by any run of moves -/
-example : ¬ ∃ odds, Moves [] [.tok (.token 1), .equal, .tok (.token 2)] [.tok (.token 1)] odds := by
+example : ¬ ∃ odds, Moves false [] [.tok (.token 1), .equal, .tok (.token 2)] [.tok (.token 1)] odds := by
   rintro ⟨odds, h⟩
   have h0 := h.no_open (by simp) (by simp)
   have hp := h.toks_perm
@@ -430,10 +875,10 @@ example : ¬ ∃ odds, Moves [] [.tok (.token 1), .equal, .tok (.token 2)] [.tok
   simp [List.filter, Lx.isTok] at this
 
 /-- an instance: `a = b` with the `=` dropped behind the key -/
-example : Moves [] [.tok (.token 1), .equal, .tok (.token 2)] [.tok (.token 1), .tok (.token 2)] [] := by
-  have m1 : Move [] [.tok (.token 1)] [.tok (.token 1)] none := Move.keep [] _
-  have m2 : Move [.tok (.token 1)] [.equal] [.tok (.token 1)] none := Move.eqAfterKey [] (.token 1)
-  have m3 : Move [.tok (.token 1)] [.tok (.token 2)] [.tok (.token 1), .tok (.token 2)] none := Move.keep _ _
-  exact Moves.step m1 (Moves.step m2 (Moves.step m3 (Moves.nil _)))
+example : Moves false [] [.tok (.token 1), .equal, .tok (.token 2)] [.tok (.token 1), .tok (.token 2)] [] := by
+  have m1 : Move false [] [.tok (.token 1)] [.tok (.token 1)] none false := Move.keep _ [] _ (by simp)
+  have m2 : Move false [.tok (.token 1)] [.equal] [.tok (.token 1)] none true := Move.eqAfterKey [] (.token 1) rfl
+  have m3 : Move true [.tok (.token 1)] [.tok (.token 2)] [.tok (.token 1), .tok (.token 2)] none false := Move.keep _ _ _ (by simp)
+  exact Moves.step m1 (Moves.step m2 (Moves.step m3 (Moves.nil _ _)))
 
 end Jomini.BinTape
